@@ -80,6 +80,12 @@ def pwl_fn_events(tf, tfl, ctx, rng, n, with_layer=True):
       continue
     out, deltas, kern = out.numpy(), deltas.numpy(), kern.numpy()
     for u in range(units):
+      # a derived segment shorter than the float32 spacing of the keypoint values (softmax of parameters that
+      # differ by more than ~16): the end point of such a segment cannot be represented, see the known finding
+      dl = deltas[0, u]
+      res = 8 * 1.2e-7 * max(1.0, abs(float(imin)), abs(float(imax)))
+      site = {"layer": "pwl_calibration_fn",
+              "sub_resolution_segment": bool(common.all_finite(list(dl)) and float(np.min(dl)) < res)}
       layer_out = []
       if with_layer:
         # C14: a PWLCalibration layer holding the derived keypoints and kernel
